@@ -91,6 +91,13 @@ CHECKS = {
         design_ref="DESIGN.md §4 C06",
         note="Linux fork start method; ASLR adds address variation on top of the explicit variants; a nondeterminism that no variant provokes stays unobserved.",
     ),
+    "C09": dict(
+        technique="runtime trace check: the sequence x, f(x), ..., f^6(x) of real format_code applications is inspected for a fixed point by the fifth application and for revisited texts; the inner fixpoint loop is observed through H-rule",
+        category="exploration",
+        text="Repository examples, the construct zoo in several positions, 15 hand-written antagonistic inputs (if/else orientation vs early return vs redundant else, literal vs comprehension forms, blank-line rules vs black, import rules) and random concatenations of three of them, and standard-library files are each formatted six times in a row under 7 option vectors; x5 must equal x6 and no text may reappear after it was left. The histogram of first fixed indices and the number of inner _multi_run_fixes rounds are evidence.",
+        design_ref="DESIGN.md §4 C09",
+        note="Bounded progress restated from the statement: fixed point within five applications (the tool's MAX_MODULE_PASSES).",
+    ),
 }
 
 NOT_YET = {}
